@@ -81,26 +81,30 @@ def state_preserving(o):
 
 
 def prefix(ops, n):
-    """event prefix: the first n operations by invocation time; those still in flight when operation n+1
-    is invoked become unknown-outcome (reads in flight are dropped). Linearizability is prefix-closed."""
+    """Lin/Shrink.v `cut T` with T = invocation time of operation n (operations sorted by invocation time):
+    the operations invoked before T; those not answered before T become unknown-outcome, and unknown reads
+    are dropped. Theorems C04_shrink_prefix / C04_shrink_drop: linearizability is preserved."""
     if n >= len(ops):
         return [list(o) for o in ops]
     cut = int(ops[n][0])
     out = []
-    for o in ops[:n]:
+    for o in ops:
+        if int(o[0]) >= cut:
+            continue
         o = list(o)
         if o[1] != "-" and int(o[1]) >= cut:
-            if o[2].split(":")[0] in READS:
-                continue
             o[1], o[3] = "-", "-"
+        if o[1] == "-" and o[2].split(":")[0] in READS:
+            continue
         out.append(o)
     return out
 
 
 def minimise(ctx, hid, ops):
-    """Shrinks a non-linearizable history by steps that preserve linearizability (so the result is
-    non-linearizable only if the recorded history is): shortest event prefix that is still rejected,
-    then removal of completed operations whose reply implies no state change."""
+    """Shrinks a non-linearizable history by steps proved to preserve linearizability (Lin/ShrinkProofs.v:
+    shrink_prefix, shrink_drop_noop, shrink_drop_unknown_read), so the result is non-linearizable only if the
+    recorded history is: shortest event prefix that is still rejected, then removal of completed operations
+    whose reply implies no state change."""
     ops = sorted([list(o) for o in ops], key=lambda o: int(o[0]))
     lo, hi = 1, len(ops)          # smallest n such that prefix(n) is nonlin (monotone)
     while lo < hi:
@@ -295,7 +299,7 @@ def run(ctx):
         raise SystemExit(2)
     vlib.regen_consts(GROUP, CMD)
     proofs_ok, info = ctx.check_proofs(
-        make_targets=["Lin/CheckerProofs.vo", "Lin/ProtocolProofs.vo", "Lin/LocalityProofs.vo", "Lin/BatchingProofs.vo", "Lin/MemoProofs.vo", "Properties/C04.vo"],
+        make_targets=["Lin/CheckerProofs.vo", "Lin/ProtocolProofs.vo", "Lin/LocalityProofs.vo", "Lin/BatchingProofs.vo", "Lin/MemoProofs.vo", "Lin/ShrinkProofs.vo", "Properties/C04.vo"],
         gate_paths=["Lin", "Properties/C04"])
     mok, mout, _ = vlib.model_build(GROUP)
     if not mok:
